@@ -54,6 +54,11 @@ PIECES = {
     "dup_can_id": 'struct A { x @0: u8, }\nstruct B { x @0: u8, }\nimpl can for A { id: 10, }\nimpl can for B { id: 10, }\n',
     "same_id_other_proto": 'struct A { x @0: u8, }\nstruct B { x @0: u8, }\nimpl can for A { id: 10, }\nimpl foo for B { id: 10, }\n',
     "unknown_struct": 'struct A { x @0: u8, }\nimpl can for Z { id: 10, }\n',
+    "dup_field_first_of_two": 'struct A { a @0: u8, b @1: u8, a @2: u8, }\nstruct B { x @0: u8, }\n',
+    "dup_field_middle_of_three": 'struct A { x @0: u8, }\nstruct B { a @0: u8, a @1: u8, }\nstruct C { a @0: u8, }\n',
+    "no_types_device_missing": 'service S @0 { method m(A) @0 returns A, }\ndevice d { services: [T], }\n',
+    "no_types_unknown_struct": 'impl can for Z { id: 10, }\n',
+    "no_types_dup_impl": 'impl can for Z { id: 10, }\nimpl can for Z { id: 11, }\n',
     "two_structs_no_ids": 'struct A { x @0: u8, }\nstruct B { x @0: u8, }\nstruct C { x @0: u8, }\n',
 }
 
